@@ -189,10 +189,15 @@ def h_dest_open(ctx, N, mode):
     m = ACK if mode == "ack" else UNACK
     with Monitor():
         sc = hdst.DstScenario(ctx, w, mode=m, cktype=ChecksumType.CRC_32, closure=bool(ctx.choice("closure", 2)),
-                              rig_kwargs={"disposition": bool(ctx.choice("disposition", 2))})
+                              rig_kwargs={"disposition": bool(ctx.choice("disposition", 2))},
+                              large=bool(ctx.choice("large_file_pdus", 2)))
         alphabet = ["MD", "FD", "EOF", "EOFC", "TICK", "CANCEL"]
         for i in range(N):
             o = sc.step(alphabet)
+            if o.exc is not None and type(o.exc).__name__ in ("FileNotFoundError", "HostAccess", "NotADirectoryError"):
+                verdict(ctx, w, "receiver sequence")
+                ctx.prop("no_host_file_access", False,
+                         lambda: {"sig": f"receiver fails without host file: {type(o.exc).__name__}"})
             hdst.end_if_other_property(ctx, o)
             if any(c[0] == "delete" for c in o.fs):
                 ctx.covered("file_discarded")
